@@ -7,6 +7,7 @@ use libfuzzer_sys::fuzz_target;
 use vcore::report::Local;
 
 fuzz_target!(|data: &[u8]| {
+    checks::fz::init();
     if data.len() < 2 {
         return;
     }
